@@ -52,6 +52,9 @@ def cases(tier, seed, info):
                 for beh in ('0', '1', '2', '3', '4'):
                     for plugins in (True, False):
                         items.append(dict(t='src', creator=creator, ref=ref, beh=beh, plugins=plugins, k=rep))
+        for a in ('BD8DAA', 'BC8AAA', 'BD8DBB', 'BD8DCC', '1100AA', 'BC8ACC'):
+            for b in ('BD8DAA', 'BC8AAA', 'BD8DBB', 'BD8DCC', 'BC8ABB'):
+                items.append(dict(t='src2', a=a, b=b, k=rep))
         for sub in (72, 73, 84, 1, 99):
             for ver in (1, 2, 0, 3):
                 for L in (0, 1, 8, 24, 40, 100):
@@ -214,6 +217,33 @@ def _src(rng, it):
     return rec
 
 
+def _src2(rng, it):
+    """a BMC PEL with a primary and a secondary SRC: which module does each reach, starting from empty caches"""
+    import verif_fixture
+    seams.install_fixture_plugins()
+    log = seams.install_import_recorder()
+    secs, asciis, present = [], [], []
+    for sid, ref in (('PS', it['a']), ('SS', it['b'])):
+        s = genpel.gen_src(rng, sid, ncallouts=-1)
+        s['ascii'] = encode.text(ref + '%02X' % rng.randrange(256), 32, 0x20)
+        s['words'][0][3] &= 0xF0
+        secs.append(s)
+        asciis.append(s['ascii'])
+        present.append(ref[:2] == 'BC' or ref[4:6] in ('AA', 'BB'))
+    pel = genpel.gen_pel(rng, kinds=[], creator='O')
+    pel['secs'] = secs
+    seams.clear_plugin_caches(unload=True)
+    verif_fixture.reset()
+    del log[:]
+    res = pelrun.decode(encode.encode(pel), True)
+    imports = [n for n in log if n.split('.')[0] == 'srcparsers']
+    calls = [c[1] for c in verif_fixture.CALLS if c[0] == 'src']
+    return dict(family='C18', kind='src2', shape_ok=res['doc'] is not None, plugins=True, asciis=asciis,
+                present=present, imports=[project.cp(n) for n in imports],
+                call_mods=[project.cp('srcparsers.%s.%s' % (c, c)) for c in calls], what=it['a'] + '+' + it['b'],
+                beh='-', calls=calls)
+
+
 def _m2c00(rng, it):
     import udparsers.m2c00.m2c00 as m2
     from io_drawer.drawer_type import DRAWER_TYPES
@@ -311,7 +341,7 @@ def run_case(case):
     rng = random.Random(case['seed'])
     recs = []
     for it in case['items']:
-        recs.append({'ud': _ud, 'src': _src, 'm2c00': _m2c00, 'callout': _callout}[it['t']](rng, it))
+        recs.append({'ud': _ud, 'src': _src, 'src2': _src2, 'm2c00': _m2c00, 'callout': _callout}[it['t']](rng, it))
     return recs
 
 
@@ -334,6 +364,9 @@ def sample(r):
 
 
 def corrupt(r):
+    if r['kind'] == 'src2':
+        r['imports'] = r['imports'] + [[120]]
+        return r
     if r['kind'] in ('ud', 'src', 'callout'):
         r['others'] = r['others'] + ['planted']
     else:
